@@ -658,6 +658,20 @@ fn check_sem_case(ctx: &mut Ctx, w: &World, g: &Gen, q: &Q, text: &str) {
         let semq = ctx.model.ask(&format!("C16 semq {mode} 0,1 {qtok} {vals}"));
         let sem = ctx.model.ask(&format!("C16 sem {mode} 0,1 {qtok} {vals}"));
         let (m_strict, m_lenient) = sem.split_once('/').unwrap_or(("?", "?"));
+        // counterfactual for the known PhrasePrefixScorer defect: the same evaluation with the gap
+        // before the prefix term ignored (expectation and model valuations)
+        let has_gap = has_prefix_gap_leaf(g);
+        let (exp_bits_d, m_strict_d, m_lenient_d) = if has_gap {
+            PREFIX_GAP_DEFECT.store(true, std::sync::atomic::Ordering::Relaxed);
+            let e: BTreeSet<usize> = (0..n).filter(|i| eval(g, q, and_mode, None, &w.docs[*i])).collect();
+            let vals_d = valuations(g, &mut intern, &w.docs);
+            PREFIX_GAP_DEFECT.store(false, std::sync::atomic::Ordering::Relaxed);
+            let sem_d = ctx.model.ask(&format!("C16 sem {mode} 0,1 {qtok} {vals_d}"));
+            let (a, b) = sem_d.split_once('/').map(|(a, b)| (a.to_string(), b.to_string())).unwrap_or_default();
+            (bits(&e, n), a, b)
+        } else {
+            (String::new(), String::new(), String::new())
+        };
         if semq != exp_bits {
             ctx.report.violation("model", "C16:semq-vs-bruteforce", format!("{}: Lean semQ {semq} ≠ harness brute force {exp_bits}", short(text)), case.clone());
         }
@@ -694,6 +708,8 @@ fn check_sem_case(ctx: &mut Ctx, w: &World, g: &Gen, q: &Q, text: &str) {
                         let safe = ctx.model.ask(&format!("C16 safe {mode} {qtok}"));
                         let key = if safe == "0" && dups && real_bits == m_strict {
                             KEY_UNWRAP
+                        } else if has_gap && real_bits == exp_bits_d {
+                            KEY_PREFIX_GAP
                         } else if real_bits == m_strict && neg_under_boost(q, false) {
                             KEY_BOOST_SKIP
                         } else {
@@ -701,7 +717,7 @@ fn check_sem_case(ctx: &mut Ctx, w: &World, g: &Gen, q: &Q, text: &str) {
                         };
                         ctx.report.violation("oracle", key, format!("{} (mode {mode}): parsed query matches {real_bits}, documented meaning {exp_bits}", short(text)), case.clone());
                     }
-                    if real_bits != m_strict {
+                    if real_bits != m_strict && !(has_gap && real_bits == m_strict_d) {
                         ctx.report.violation("model", "C16:pipeline-model-mismatch", format!("{} (mode {mode}): real {real_bits} ≠ model of the parser pipeline {m_strict}", short(text)), case.clone());
                     }
                     strict_set = Some(set);
@@ -729,7 +745,7 @@ fn check_sem_case(ctx: &mut Ctx, w: &World, g: &Gen, q: &Q, text: &str) {
                         (Ok(a), (l, e)) => a != l || !e.is_empty(),
                         _ => true,
                     };
-                    if lb != m_lenient && !grammar_differs {
+                    if lb != m_lenient && !grammar_differs && !(has_gap && lb == m_lenient_d) {
                         ctx.report.violation("model", "C16:lenient-pipeline-model-mismatch", format!("{} (mode {mode}): real lenient {lb} ≠ model {m_lenient}", short(text)), case.clone());
                     }
                 }
@@ -821,10 +837,7 @@ pub fn replay(ctx: &mut Ctx, case: &Value) {
 /// re-run a semantic case from its stored documents (index rebuilt from the JSON documents)
 fn replay_sem(ctx: &mut Ctx, case: &Value, text: &str) {
     let docs = case["docs"].as_array().cloned().unwrap_or_default();
-    let mut rng = Rng::new(7);
-    let w0 = build_world(&mut rng, 0);
-    let schema = w0.index.schema();
-    let index = Index::create_in_ram(schema.clone());
+    let (schema, index) = new_index();
     let mut wr: IndexWriter = index.writer_with_num_threads(1, 20_000_000).unwrap();
     for d in &docs {
         wr.add_document(TantivyDocument::parse_json(&schema, &d.to_string()).unwrap()).unwrap();
@@ -934,6 +947,40 @@ pub fn run(ctx: &mut Ctx) {
     let n_fold = if on("b") { ctx.budget(4_000, 200_000) } else { 0 };
     for _ in 0..n_fold {
         check_fold(ctx, &w);
+    }
+
+    // corpus: a phrase keeps the gap of a token its field's analyzer drops
+    if on("c") {
+        let mut base = gen_doc(&mut Rng::new(5));
+        base.title = vec![];
+        base.body = vec![];
+        let texts = ["quick the fox", "quick fox", "quick brown fox", "the quick fox of", "fox quick", "quick the of fox", "fox quick the fox", "fox quick fox"];
+        let docs: Vec<DocRec> = texts
+            .iter()
+            .map(|t| {
+                let mut d = base.clone();
+                d.stop = t.split(' ').map(|x| x.to_string()).collect();
+                d
+            })
+            .collect();
+        let w3 = build_world_docs(docs, 3);
+        for (words, slop, prefix) in [
+            (vec!["quick", "the", "fox"], 0u32, false),
+            (vec!["quick", "the", "fox"], 1, false),
+            (vec!["quick", "the", "fo"], 0, true),
+            (vec!["quick", "the", "of", "fox"], 0, false),
+            (vec!["the", "quick", "fox"], 0, false),
+            (vec!["quick", "fox"], 0, false),
+            // known defect of PhrasePrefixScorer: a gap right before the prefix term (>= 3 kept terms)
+            (vec!["the", "quick", "of", "fo"], 0, true),
+            (vec!["fox", "quick", "the", "fo"], 0, true),
+        ] {
+            let g = Gen { leaves: vec![LeafSpec::Phrase { field: Some(F_STOP), words: words.iter().map(|x| x.to_string()).collect(), delim: Delim::Double, slop, prefix }] };
+            let q = Q::Leaf(0);
+            let text = g.print(&mut ctx.rng.fork(), &q, true);
+            ctx.report.count("sem:stop-word-phrase-corpus");
+            check_sem_case(ctx, &w3, &g, &q, &text);
+        }
     }
 
     // (c) semantics on several corpora
